@@ -62,6 +62,125 @@ func c05Stranger(c *Ctx, B *rnode) string {
 	return kind
 }
 
+// c05ForgedRolloverNearWrap replays finding D23 on a real link: the sender's link sequence is
+// within 255 of the 32-bit wrap (a link that has carried about 4.29 * 10^9 frames; set through the
+// hook), a few frames are delivered, then the wire adversary injects ONE chunk with a small
+// sequence number and garbage content.  It is rejected, as it must be; but the intact frames that
+// follow must keep arriving (or the link must close).  Coq: C05_forged_rollover_refuted.
+func c05ForgedRolloverNearWrap(c *Ctx) error {
+	for rep, n := 0, c.Pick(2, 5); rep < n; rep++ {
+		p, err := newLinkedPair(relayStore, relayStore, nil, nil)
+		if err != nil {
+			if p != nil {
+				p.close()
+			}
+			return fmt.Errorf("link setup: %w", err)
+		}
+		_, regl := peering.VerifLinkSession(p.la).VerifSeqHandlers()
+		start := uint32(0xFFFFFF00 + c.Rng.IntN(100))
+		regl.VerifSetOut(start)
+		inject := false
+		var recorded [][]byte
+		p.ab.mu.Lock()
+		p.ab.fault = func(idx int, chunk []byte) [][]byte {
+			if !inject {
+				recorded = append(recorded, append([]byte(nil), chunk...))
+				return [][]byte{chunk}
+			}
+			inject = false
+			g := make([]byte, 40+c.Rng.IntN(40))
+			for i := range g {
+				g[i] = byte(c.Rng.IntN(256))
+			}
+			g[0], g[1] = 0, byte(len(g))
+			g[2] = 1
+			g[4], g[5], g[6], g[7] = 0, 0, 0, byte(1+c.Rng.IntN(200)) // sequence number 1..200
+			// ... followed by a copy of a frame recorded earlier on this link
+			if len(recorded) > 0 {
+				return [][]byte{g, append([]byte(nil), recorded[c.Rng.IntN(len(recorded))]...), chunk}
+			}
+			return [][]byte{g, chunk}
+		}
+		p.ab.mu.Unlock()
+		send := func(tag string, k int) ([]byte, error) {
+			payload := []byte(fmt.Sprintf("WRAP-%s-%02d-%d", tag, k, rep))
+			f, err := p.A.builder.NewFrameV1(p.A.id.IP, p.B.id.IP, frame.NetworkTraffic, nil, payload, nil)
+			if err != nil {
+				return nil, err
+			}
+			d, _ := f.FrameDataWithMargins(0, 0)
+			cp := append([]byte(nil), d...)
+			return cp, p.la.Send(f)
+		}
+		recvN := func(want int, wait time.Duration) (got [][]byte) {
+			deadline := time.After(wait)
+			for len(got) < want {
+				select {
+				case f := <-p.B.peerIn:
+					d, _ := f.FrameDataWithMargins(0, 0)
+					got = append(got, append([]byte(nil), d...))
+					f.ReturnToPool()
+				case <-deadline:
+					return got
+				}
+			}
+			return got
+		}
+		for k := 0; k < 3; k++ {
+			if _, err := send("before", k); err != nil {
+				return err
+			}
+		}
+		before := recvN(3, 2*time.Second)
+		p.ab.mu.Lock()
+		inject = true
+		p.ab.mu.Unlock()
+		nAfter := 5 + c.Rng.IntN(20)
+		var handed [][]byte
+		for k := 0; k < nAfter; k++ {
+			d, err := send("after", k)
+			if err != nil {
+				return err
+			}
+			handed = append(handed, d)
+		}
+		after := recvN(nAfter, time.Duration(c.Pick(500, 800))*time.Millisecond)
+		time.Sleep(5 * time.Millisecond)
+		closed := p.lb.IsClosing()
+		p.close()
+		c.Eval()
+		c.Count("fault:forged-low-sequence-near-wrap")
+		c.NonTrivial(fmt.Sprintf("near-wrap/%d", nAfter))
+		rep := map[string]any{"sender_sequence_start": start, "frames_before": len(before), "frames_after_handed": nAfter, "frames_after_delivered": len(after), "link_closed": closed}
+		if len(before) != 3 {
+			c.Violate("frames sent near the sequence wrap did not arrive on an undisturbed link", "near-wrap-undisturbed-lost", rep)
+			continue
+		}
+		for _, d := range after {
+			ok := false
+			for _, h := range handed {
+				ok = ok || bytes.Equal(h, d)
+			}
+			if !ok {
+				dup := false
+				for _, b := range before {
+					dup = dup || bytes.Equal(b, d)
+				}
+				if dup {
+					c.Violate("a frame delivered before was delivered a second time after an injected chunk near the sequence wrap", "second-copy", rep)
+				} else {
+					c.Violate("the remote frame handler received a frame that is not byte-identical to a frame handed to the link", "altered-delivered", rep)
+				}
+			}
+		}
+		if len(after) < nAfter && !closed {
+			c.Violate(fmt.Sprintf("after ONE injected chunk with a small sequence number (rejected), %d of %d intact later frames did not arrive although the link stayed up: the receiver rolled its incoming key over on the unauthenticated sequence number (sender at %#x)", nAfter-len(after), nAfter, start),
+				"d23-forged-rollover-frame-near-wrap", rep)
+		}
+	}
+	return nil
+}
+
 func runC05(c *Ctx) error {
 	c.Res.Rule = "two real routers joined by a real link (real handshake, link reader/writer workers) over an in-memory connection relayed by the harness; frames of all message types and sizes (1..9000 bytes, a few near the 65535 link maximum in the thorough tier) are handed to the link while a wire adversary applies fault sequences: " +
 		"bit flips in the length prefix / header / ciphertext / tag, truncation, duplication, swapping, dropping, injection of random and crafted chunks (including chunks shorter than header+MAC); observed: frames reaching the remote frame handler, link closed, wire capture; " +
@@ -396,6 +515,9 @@ func runC05(c *Ctx) error {
 			c.Violate("the link did not close after 100 consecutive unauthenticated frames", "no-close", map[string]any{})
 		}
 		p.close()
+	}
+	if err := c05ForgedRolloverNearWrap(c); err != nil {
+		return err
 	}
 	// LinkFrame.Unseal on arbitrary short and random chunks: error, never a panic
 	c.CoqSetup("Prelude Seq SeqCorr LinkFrame LinkFrameCorr", "c05_ucase", "c05_uok")
